@@ -12,7 +12,7 @@ RULE = ('programs x sequences of K<=2 (thorough: sampled K=3,4) requests from {p
         'loop-callback slot (same-slot both orders), from listener callbacks and from step functions; every live end configuration gets a '
         'probing kill; distinct by (program, plan); non-trivial when a kill was delivered to a live process')
 ASSUMPTIONS = ['steps complete without external stimulus (asyncio.sleep(0) yields only)', 'quiescence = empty ready queue, no timers']
-REQUIRED = ['kill_after_abort', 'kill_recreated', 'kill_live', 'quiescent_checks', 'kill_phase/unstarted', 'kill_phase/running-step', 'kill_phase/waiting-step', 'kill_phase/paused',
+REQUIRED = ['kill_after_abort', 'kill_recreated', 'kill_workchain', 'kill_live', 'quiescent_checks', 'kill_phase/unstarted', 'kill_phase/running-step', 'kill_phase/waiting-step', 'kill_phase/paused',
             'kill_phase/pausing', 'kill_phase/listener']
 ALPHABET = [['pause', 'p'], ['play'], ['kill', 'k'], ['resume', ['v']], ['cancel_future']]
 KILLS = ('kill', 'cancel_future')
@@ -29,6 +29,8 @@ DEEP = ('wait_async', 'cont_async', 'out_async', 'wait2')  # thorough: K=3 exhau
 
 
 def gen_cases(tier, seed):
+    for case in gen_wc_cases(tier, seed):
+        yield case
     progs = dict(programs.basic_programs())
     rng = plans.rng_for(seed, 'c04')
     for n in range(40 if tier == 'thorough' else 6):
@@ -86,6 +88,40 @@ def gen_cases(tier, seed):
                           'barrage': False, 'listener': True}
 
 
+WC_PROGRAMS = ('n1_fr', 'n1_cc', 'n2_fr_cc', 'n2_cr_fc', 'reassign_child', 'oldchild_ret', 'samekey')
+WC_ALPHABET = [['pause', 'p'], ['play'], ['kill', 'k'], ['cancel_future']]
+
+
+def gen_wc_cases(tier, seed):
+    """WorkChains blocked at a ToContext barrier (futures / children): kills placed among completions and pause / play."""
+    from pv import wcprog
+    from pv.monitors import c10
+    rng = plans.rng_for(seed, 'c04wc')
+    progs = c10._programs('quick')
+    for name in WC_PROGRAMS:
+        prog = progs.get(name)
+        if prog is None:
+            continue
+        n = wcprog.run_case({'program': prog, 'plan': [], 'drain': True})['slots'] + 1
+        extra = []
+        for st in prog['steps']:
+            for _k, idx, kind, _h in st['reg']:
+                if kind == 'fut':
+                    extra += [['complete', idx, ['value', 'v']], ['complete', idx, ['exc', 'e']]]
+                else:
+                    extra += [['child', idx, 'resume'], ['child', idx, 'kill']]
+        plist = [p for p in plans.all_placements(n, WC_ALPHABET + extra, 1) if _has_kill(p)]
+        two = [p for p in plans.all_placements(n, WC_ALPHABET + extra, 2) if _has_kill(p)]
+        if tier == 'quick' and len(two) > 600:
+            two = rng.sample(two, 600)
+        plist += two
+        if tier == 'thorough':
+            plist += [p for p in plans.sampled_placements(rng, n, WC_ALPHABET + extra, 3, 1500) if _has_kill(p)]
+        for i, plan in enumerate(plist):
+            yield {'wc': True, 'name': 'wc:' + name, 'program': prog, 'plan': plans.uniq(plan, 'w%d' % i), 'drain': True, 'probe': True, 'barrage': False,
+                   'listener': True}
+
+
 def _kill_phase(a):
     ph = a['phase'].split('/')
     out = []
@@ -113,7 +149,11 @@ def _kill_phase(a):
 
 
 def run_case(case):
-    rec = lifecycle.run_case(case)
+    if case.get('wc'):
+        from pv import wcprog
+        rec = wcprog.run_case(case)
+    else:
+        rec = lifecycle.run_case(case)
     viol = judges.judge_c04(rec)
     obs = {'kill_live': 0, 'kill_phase': {}, 'quiescent_checks': 0, 'probe_kills': 0, 'final': {}, 'kill_returns': {}}
     first = None
@@ -128,6 +168,7 @@ def run_case(case):
                 obs['kill_phase'][ph] = obs['kill_phase'].get(ph, 0) + 1
             r = a['ret'][0] if a['ret'][0] != 'value' else str(a['ret'][1])
             obs['kill_returns'][r] = obs['kill_returns'].get(r, 0) + 1
+    obs['kill_workchain'] = int(bool(case.get('wc')) and first is not None)
     obs['kill_recreated'] = int(bool(case.get('recreate')) and first is not None)
     obs['kill_after_abort'] = int(any(a['kind'] == 'abort_task' for a in rec['acts']) and first is not None)
     if first is not None:
